@@ -49,12 +49,20 @@ use std::cmp::Ordering;
 use std::hash::{Hash, Hasher};
 #[derive(Clone, Copy, Debug, PartialEq, Eq, PartialOrd, Ord, Hash)]
 pub struct W(pub u8);
-pub fn kk(x: &W) -> u8 { x.0 / 2 }
-pub fn lb_ord(a: &W, b: &W) -> Ordering { kk(a).cmp(&kk(b)) }
-pub fn lb_partial_ord(a: &W, b: &W) -> Option<Ordering> { Some(kk(a).cmp(&kk(b))) }
-pub fn lb_eq(a: &W, b: &W) -> bool { kk(a) == kk(b) }
-pub fn lb_partial_eq(a: &W, b: &W) -> bool { kk(a) == kk(b) }
-pub fn lb_hash<H: Hasher>(a: &W, h: &mut H) { kk(a).hash(h) }
+/// a lawful *partial* order: `P(2)` is unordered and unequal to everything, itself included (like a NaN)
+#[derive(Clone, Copy, Debug)]
+pub struct P(pub u8);
+impl PartialEq for P { fn eq(&self, o: &P) -> bool { self.0 != 2 && o.0 != 2 && self.0 == o.0 } }
+impl PartialOrd for P { fn partial_cmp(&self, o: &P) -> Option<Ordering> { if self.0 == 2 || o.0 == 2 { None } else { Some(self.0.cmp(&o.0)) } } }
+pub trait K0 { fn k0(&self) -> u8; }
+impl K0 for W { fn k0(&self) -> u8 { self.0 } }
+impl K0 for P { fn k0(&self) -> u8 { self.0 } }
+pub fn kk<T: K0>(x: &T) -> u8 { x.k0() / 2 }
+pub fn lb_ord<T: K0>(a: &T, b: &T) -> Ordering { kk(a).cmp(&kk(b)) }
+pub fn lb_partial_ord<T: K0>(a: &T, b: &T) -> Option<Ordering> { Some(kk(a).cmp(&kk(b))) }
+pub fn lb_eq<T: K0>(a: &T, b: &T) -> bool { kk(a) == kk(b) }
+pub fn lb_partial_eq<T: K0>(a: &T, b: &T) -> bool { kk(a) == kk(b) }
+pub fn lb_hash<T: K0, H: Hasher>(a: &T, h: &mut H) { kk(a).hash(h) }
 pub struct Rec(pub Vec<String>);
 impl Hasher for Rec {
     fn finish(&self) -> u64 { 0 }
@@ -80,6 +88,12 @@ def lawSem : FieldSem Nat String where
   keyPcmp _ a b := some (compare (a / 2) (b / 2))
   keyCmp _ a b := compare (a / 2) (b / 2)
   keyHash _ a := [s!"u8:{a / 2}"]
+
+/-- the lawful *partial* field type `P` of the prelude: the value 2 is unordered and unequal to everything -/
+def lawSemP : FieldSem Nat String :=
+  { lawSem with
+    eq := fun a b => a != 2 && b != 2 && a == b
+    pcmp := fun a b => if a == 2 || b == 2 then none else some (compare a b) }
 
 /-! ### the Lean twin of the prelude -/
 
@@ -127,11 +141,11 @@ structure L2Val where
 def L2Val.toVal (v : L2Val) : Val Nat := { variant := v.variant, field := fun i => v.fields.getD i 0 }
 
 def ctorExpr (path : String) (fs : Fields) (vals : List Nat) : String :=
-  let w (x : Nat) := s!"W({x})"
+  let w (f : Field) (x : Nat) := s!"{srcText f.ty.toks}({x})"
   match fs.kind with
   | .unit => path
-  | .unnamed => path ++ "(" ++ ", ".intercalate (vals.map w) ++ ")"
-  | .named => path ++ " { " ++ ", ".intercalate ((fs.fields.zip vals).map fun (f, x) => s!"{f.name.getD "_"}: {w x}") ++ " }"
+  | .unnamed => path ++ "(" ++ ", ".intercalate ((fs.fields.zip vals).map fun (f, x) => w f x) ++ ")"
+  | .named => path ++ " { " ++ ", ".intercalate ((fs.fields.zip vals).map fun (f, x) => s!"{f.name.getD "_"}: {w f x}") ++ " }"
 
 def valuesOf (item : Item) : List L2Val :=
   let dom (n : Nat) : List Nat := if n ≤ 2 then [0, 1, 2] else [0, 2]
@@ -165,9 +179,17 @@ def cmpImplsOf (c : Case) : List (CmpOp × CmpImpl) :=
 def caseAccepted (c : Case) : Bool :=
   c.expand.all fun s => match s.body with | .toks _ => true | _ => false
 
-def allW (n : Nat) (kind : FieldsKind) (attrs : Nat → List Attr) : Fields :=
+def allW (n : Nat) (kind : FieldsKind) (attrs : Nat → List Attr) (tyName : String := "W") : Fields :=
   { kind, fields := (List.range n).map fun i =>
-      { attrs := attrs i, name := if kind == .named then some (["a", "b", "c"].getD i "z") else none, ty := Ty.simple "W" } }
+      { attrs := attrs i, name := if kind == .named then some (["a", "b", "c"].getD i "z") else none, ty := Ty.simple tyName } }
+
+/-- does the item have a field of the partial type `P`? -/
+def usesP (item : Item) : Bool :=
+  let isP (f : Field) := f.ty.toks == ["P"]
+  match item with
+  | .struct_ s => s.fields.fields.any isP
+  | .enum_ e => e.variants.any fun v => v.fields.fields.any isP
+  | _ => false
 
 /-- a random comparison item over `W` fields that the expander accepts -/
 def genCmpRunCase (lawful : Bool) (seed idx : Nat) : Case := runGen seed idx do
@@ -176,15 +198,17 @@ def genCmpRunCase (lawful : Bool) (seed idx : Nat) : Case := runGen seed idx do
   let args := argsOfTraits traits
   let useDerive ← chance 1 3
   let isEnum ← chance 1 2
+  -- only `PartialEq` / `PartialOrd` derived: the field type may be a lawful *partial* order
+  let tyName ← if lawful && (mask == 8 || mask == 10 || mask == 2) && (← chance 2 3) then pure "P" else pure "W"
   let mkItem (attrsFor : Nat → Nat → List Attr) (shape : List (FieldsKind × Nat)) : Item :=
     if isEnum then
       .enum_ { attrs := if useDerive then [.deriveEx args] else [], name := "X",
                variants := shape.zipIdx.map fun ((k, n), vi) =>
-                 { name := ["A", "B", "C"].getD vi "Z", fields := if k == .unit then { kind := .unit } else allW n k (attrsFor vi) } }
+                 { name := ["A", "B", "C"].getD vi "Z", fields := if k == .unit then { kind := .unit } else allW n k (attrsFor vi) tyName } }
     else
       let (k, n) := shape.headD (.unit, 0)
       .struct_ { attrs := if useDerive then [.deriveEx args] else [], name := "X",
-                 fields := if k == .unit then { kind := .unit } else allW n k (attrsFor 0) }
+                 fields := if k == .unit then { kind := .unit } else allW n k (attrsFor 0) tyName }
   let nv ← if isEnum then pickW [(1, 0), (2, 1), (4, 2), (3, 3)] else pure 1
   let shape ← listOf nv (do
     let k ← pickW [(3, FieldsKind.unnamed), (3, .named), (1, .unit)]
@@ -211,7 +235,7 @@ def genCmpRunCase (lawful : Bool) (seed idx : Nat) : Case := runGen seed idx do
   let attrsFor (vi fi : Nat) : List Attr := attrsOfCombo (combos.getD (vi * 3 + fi) 0)
   let item := mkItem attrsFor shape
   pure { id := s!"{if lawful then "lawRun" else "cmpRun"}/{seed}/{idx}",
-         tags := [s!"traits={"+".intercalate traits}", s!"enum={isEnum}"],
+         tags := [s!"traits={"+".intercalate traits}", s!"enum={isEnum}", s!"field={tyName}"],
          entry := if useDerive then .derive else .attr args, item }
 
 /-- hand-written (never observed) impls of the supertraits rustc demands and the case does not derive -/
@@ -234,7 +258,7 @@ def cmpRunProgram (lawful : Bool) (c : Case) (modName : String) : String × List
   let vals := valuesOf c.item
   let impls := cmpImplsOf c
   let has (t : CmpOp) := impls.any (·.1 == t)
-  let σ : Env Nat String := fun _ => if lawful then lawSem else wSem
+  let σ : Env Nat String := fun _ => if lawful then (if usesP c.item then lawSemP else lawSem) else wSem
   let vs := vals.map L2Val.toVal
   let body :=
     s!"pub mod {modName} \{ use super::*;\n{rustItem c}\n{supertraitStubs (impls.map (·.1))}pub fn run() \{\n let vs: Vec<X> = vec![{", ".intercalate (vals.map (·.expr))}];\n" ++
@@ -298,7 +322,7 @@ def probeProgram (lawful : Bool) (c : Case) (traits : List String) (modName : St
   let impls := cmpImplsOf c
   let ops : List CmpOp := CmpOp.all.filter fun t => traits.contains t.str
   let has (t : CmpOp) := ops.contains t
-  let σ : Env Nat String := fun _ => if lawful then lawSem else wSem
+  let σ : Env Nat String := fun _ => if lawful then (if usesP c.item then lawSemP else lawSem) else wSem
   let vs := vals.map L2Val.toVal
   let body :=
     s!"pub mod {modName} \{ use super::*;\n{rustItem c}\n{supertraitStubs ops}pub fn run() \{\n let vs: Vec<X> = vec![{", ".intercalate (vals.map (·.expr))}];\n" ++
@@ -332,6 +356,7 @@ def cmpRunStats (c : Case) : List String :=
   let cmpArgs : List CmpArgs := fields.flatMap fun f => f.attrs.filterMap fun
     | .cmp _ (.list a) => some a | _ => none
   [s!"fields={fields.length}", s!"attrs={min cmpArgs.length 6}"] ++
+  (if usesP c.item then ["field=P (partial order)"] else []) ++
   (if cmpArgs.any (·.key.isSome) then ["uses=key"] else []) ++
   (if cmpArgs.any (·.by_.isSome) then ["uses=by"] else []) ++
   (if cmpArgs.any (·.reverse) then ["uses=reverse"] else []) ++
